@@ -435,7 +435,9 @@ package cputensor
 //@ lemma odoShrink: forallJ(A, forallJ(B, forallJ(S, forallI(k, imp(odoK(A, B, S, k) && k >= 1 && A[k-1] == S[k-1] - 1, odoK(A, B, S, k-1) && B[k-1] == 0))))) @uses allMaxShrink, allMaxGrow
 //@ lemma odoStay: forallJ(A, forallJ(B, forallJ(S, forallI(k, imp(odoK(A, B, S, k) && k >= 1 && A[k-1] < S[k-1] - 1, sameOn(A, B, 0-1, k-1) && B[k-1] == A[k-1] + 1))))) @uses allMaxShrink
 //@ define valSuccBody(k) := forallJ(A, forallJ(B, forallJ(S, imp(odoK(A, B, S, k) && validUpTo(A, S, k), val(B, S, k) == val(A, S, k) + 1))))
-//@ induct valSucc: up valSuccBody @uses valDef, valExt, odoShrink, odoStay
+//@ lemma valSuccStep: forallJ(A, forallJ(B, forallJ(S, forallI(k, forallI(m, imp(m == k + 1 && k >= 0 && odoK(A, B, S, m) && validUpTo(A, S, m)
+//@              && imp(odoK(A, B, S, k) && validUpTo(A, S, k), val(B, S, k) == val(A, S, k) + 1), val(B, S, m) == val(A, S, m) + 1)))))) @uses valDef, valExt, odoShrink, odoStay
+//@ induct valSucc: up valSuccBody @uses valSuccStep, valDef
 //@ define valBoundBody(k) := forallJ(J, forallJ(S, imp(validUpTo(J, S, k) && forall(j, 0, k, S[j] >= 1), imp(J[0-1] == 0, 0 <= val(J, S, k) && val(J, S, k) < prod(S, 0, k)) && imp(J[0-1] >= 1, val(J, S, k) >= prod(S, 0, k)))))
 //@ induct valBound: up valBoundBody @uses valDef
 // well-definedness of flat: two indices in bounds with the same value are the same index
@@ -444,7 +446,12 @@ package cputensor
 //@ axiom unvalDef: forallJ(S, forallI(k, forallI(p, unvalK(S, k, p) == ite(k <= 0, upd(zeroIdx(), 0-1, p), upd(unvalK(S, k-1, p / S[k-1]), k-1, p % S[k-1])))))
 //@ lemma divMod: forallI(p, forallI(s, imp(s >= 1 && p >= 0, (p / s) * s + p % s == p && 0 <= p % s && p % s < s && p / s >= 0)))
 //@ define unvalOKBody(k) := forallJ(S, forallI(p, imp(p >= 0 && forall(j, 0, k, S[j] >= 1), val(unvalK(S, k, p), S, k) == p && validUpTo(unvalK(S, k, p), S, k) && unvalK(S, k, p)[0-1] >= 0)))
-//@ induct unvalOK: up unvalOKBody @uses valDef, valExt, unvalDef, divMod
+// the step of unvalOK as a lemma of its own (the induction hypothesis is an explicit premise at the quotient q): the induction
+// below then only has to instantiate its hypothesis once
+//@ lemma unvalOKStep: forallJ(S, forallI(k, forallI(p, forallI(q, forallI(m, imp(m == k + 1 && k >= 0 && p >= 0 && S[k] >= 1 && q == p / S[k]
+//@              && val(unvalK(S, k, q), S, k) == q && validUpTo(unvalK(S, k, q), S, k) && unvalK(S, k, q)[0-1] >= 0,
+//@              val(unvalK(S, m, p), S, m) == p && validUpTo(unvalK(S, m, p), S, m) && unvalK(S, m, p)[0-1] >= 0)))))) @uses valDef, valExt, unvalDef, divMod
+//@ induct unvalOK: up unvalOKBody @uses unvalOKStep, valDef, unvalDef, divMod
 //@ lemma prodShp: forallT(t, imp(t != nil && published(t), prod(shp(t), 0, rank(t)) == nelems(t))) @uses dimsLink
 //@ axiom unvalT: forallT(t, forallI(p, unval(t, p) == unvalK(shp(t), rank(t), p)))
 //@ lemma unflatten: forallT(t, forallI(p, imp(t != nil && published(t) && 0 <= p && p < nelems(t), inb(t, unval(t, p)) && val(upd(unval(t, p), 0-1, 0), shp(t), rank(t)) == p))) @uses unvalT, unvalOK, valBound, prodShp, valExt
